@@ -143,3 +143,55 @@ def exprs_of_stmt(s):
     if op in ('block', 'break', 'continue', 'null', 'case', 'default', 'try', 'catch'):
         return []
     return [s]
+
+
+class Proxy:
+    """forwards to a Ctx with a rule-name prefix (used to run the format rules of C05 as C03/R3);
+    `only`: forward only rules whose name starts with one of these prefixes"""
+    def __init__(self, ctx, prefix, only=None):
+        self._c = ctx
+        self._p = prefix
+        self._only = only
+
+    def _ok(self, rule):
+        return self._only is None or any(rule.startswith(o) for o in self._only)
+
+    def __getattr__(self, n):
+        return getattr(self._c, n)
+
+    def holds(self, rule, site, detail):
+        if self._ok(rule):
+            self._c.holds(self._p + rule, site, detail)
+
+    def violation(self, rule, site, detail, witness=None):
+        if self._ok(rule):
+            self._c.violation(self._p + rule, site, detail, witness)
+
+    def broken(self, rule, site, detail):
+        if self._ok(rule):
+            self._c.broken(self._p + rule, site, detail)
+
+    def guard(self, rule, site, fn):
+        self._c.guard(self._p + rule, site, fn)
+
+    def count(self, name, n, minimum=None):
+        if self._only is None:
+            self._c.count(name, n, minimum)
+
+    def analysed(self, f):
+        self._c.analysed(f)
+
+    def assume(self, t):
+        if self._only is None:
+            self._c.assume(t)
+
+
+
+def share(ctx, module, prefix, only=None):
+    """Run the rules of another property module as shared rules of this one.  Only the property
+    being checked pulls in shared rules; never transitively (the sharing graph has cycles)."""
+    import importlib
+    if isinstance(ctx, Proxy):
+        return
+    mod = importlib.import_module('hepsa.rules.' + module)
+    mod.check(Proxy(ctx, prefix, only))
